@@ -363,49 +363,8 @@ func checkC18(c *Ctx) {
 	}
 	var wrapStoreG *ssa.Store   // the store that installs the TLS listener
 	var wrapAtG ssa.Instruction // where that happens in Run (the store or the helper call)
-	guards := ifsOn(run, func(v ssa.Value) bool {
-		x, _, ok := an.NilCheck(v)
-		return ok && isCfgLoad2(x)
-	})
-	// several tests of the option may exist (one may only log): the one that matters is the one whose
-	// "configured" branch holds the store (or helper call) that installs the TLS listener
-	if len(guards) > 1 {
-		var sel []condIf
-		for _, gd := range guards {
-			v, _ := an.Not(gd.If.Cond)
-			_, trueMeansNil, _ := an.NilCheck(v)
-			withTLS := succOn(gd.If, trueMeansNil == gd.Neg)
-			holds := false
-			an.Instrs(run, func(in ssa.Instruction) {
-				if !withTLS.Dominates(in.Block()) {
-					return
-				}
-				switch x := in.(type) {
-				case *ssa.Store:
-					if _, ok := fieldAddr(x.Addr, G, "Server", "listener"); ok {
-						holds = true
-					}
-				case *ssa.Call:
-					if f := an.StaticCallee(x.Common()); f != nil && partOfRun(f) && f != run && len(fieldStores([]*ssa.Function{f}, G, "Server", "listener")) > 0 {
-						holds = true
-					}
-				}
-			})
-			if holds {
-				sel = append(sel, gd)
-			}
-		}
-		guards = sel
-	}
-	if len(guards) != 1 {
-		R.Fail("C18-wrap", "(*Server).Run: TLS listener installed when configured", c.pos(m.accept), sprintf("expected one `opts.withTLSConfig != nil` test guarding the TLS wrap, found %d", len(guards)))
-	} else {
-		gd := guards[0]
-		v, _ := an.Not(gd.If.Cond)
-		_, trueMeansNil, _ := an.NilCheck(v)
-		withTLS := succOn(gd.If, trueMeansNil == gd.Neg)
-		// stores to s.listener
-		var wrapStore *ssa.Store
+	{
+		key := "(*Server).Run: TLS listener installed when configured"
 		// the wrap happens in Run or in a helper that runs only as part of Run
 		var wrapFns []*ssa.Function
 		for _, f := range c.shippedFuncs(G) {
@@ -413,6 +372,7 @@ func checkC18(c *Ctx) {
 				wrapFns = append(wrapFns, f)
 			}
 		}
+		var wrapStore *ssa.Store
 		for _, fs := range fieldStores(wrapFns, G, "Server", "listener") {
 			call, ok := an.Strip(fs.Store.Val).(*ssa.Call)
 			if ok && an.CalleeIs(call.Common(), "crypto/tls", "NewListener") {
@@ -431,45 +391,104 @@ func checkC18(c *Ctx) {
 				R.Check(innerOK && cfgOK, "C18-wrap", "(*Server).Run: tls.NewListener(plain listener, configured tls.Config)", c.pos(call), "wraps s.listener with exactly the WithTLSConfig value", sprintf("TLS listener is not built from the plain listener and the caller's config (listener=%v config=%v: %s)", innerOK, cfgOK, an.Path(call.Common().Args[1])))
 			}
 		}
-		// the instruction of Run at which the TLS listener gets installed: the store, or the call of the helper holding it
-		var wrapAt ssa.Instruction = wrapStore
-		if wrapStore != nil && wrapStore.Parent() != run {
-			wrapAt = nil
-			h := wrapStore.Parent()
-			for _, ci := range an.Calls(run) {
-				if an.StaticCallee(ci.Common()) == h && isCall(ci) {
-					wrapAt = ci
-				}
-			}
-			// inside the helper every path installs it
-			if wrapAt != nil && an.Search(an.Entry(h), an.IsReturn, isInstr(wrapStore)) != nil {
-				R.Fail("C18-wrap", "(*Server).Run: TLS listener installed when configured", c.pos(wrapStore), fname(h)+" can return without installing the TLS listener")
+		// tests of "a TLS config was given": nil checks of the configured value, in Run or in a helper (on the
+		// parameter that receives it)
+		type cfgTest struct {
+			fn      *ssa.Function
+			iff     *ssa.If
+			withTLS *ssa.BasicBlock // successor taken when a config was given
+		}
+		var tests []cfgTest
+		for _, f := range wrapFns {
+			for _, g := range ifsOn(f, func(v ssa.Value) bool {
+				x, _, ok := an.NilCheck(v)
+				return ok && isCfg(x, 0)
+			}) {
+				v, _ := an.Not(g.If.Cond)
+				_, trueMeansNil, _ := an.NilCheck(v)
+				tests = append(tests, cfgTest{f, g.If, succOn(g.If, trueMeansNil == g.Neg)})
 			}
 		}
-		wrapStoreG, wrapAtG = wrapStore, wrapAt
-		if wrapStore == nil || wrapAt == nil {
-			R.Fail("C18-wrap", "(*Server).Run: TLS listener installed when configured", c.pos(gd.If), "no store of tls.NewListener(...) into s.listener")
-		} else {
-			if w := an.SearchCorr(an.Point{B: withTLS, I: 0}, isInstr(m.accept), isInstr(wrapAt), nil); w != nil {
-				R.Fail("C18-wrap", "(*Server).Run: TLS listener installed when configured", c.pos(wrapStore), "with a TLS config a path reaches Accept without installing the TLS listener: "+c.trail(w))
-			} else if an.SearchCorr(an.Entry(run), isInstr(m.accept), isInstr(gd.If), nil) != nil {
-				R.Fail("C18-wrap", "(*Server).Run: TLS listener installed when configured", c.pos(gd.If), "a path reaches Accept without testing for a TLS config")
-			} else {
-				R.OK("C18-wrap", "(*Server).Run: TLS listener installed when configured", c.pos(wrapStore), "every path with withTLSConfig != nil stores the TLS listener into s.listener before the first Accept")
-			}
-			// never replaced afterwards
-			later := func(in ssa.Instruction) bool {
-				st, ok := in.(*ssa.Store)
-				if !ok {
-					return false
+		switch {
+		case wrapStore == nil:
+			R.Fail("C18-wrap", key, c.pos(m.accept), "no store of tls.NewListener(...) into s.listener")
+		default:
+			h := wrapStore.Parent()
+			// where, in Run, the TLS listener gets installed
+			var wrapAt ssa.Instruction = wrapStore
+			if h != run {
+				wrapAt = nil
+				for _, ci := range an.Calls(run) {
+					if an.StaticCallee(ci.Common()) == h && isCall(ci) {
+						wrapAt = ci
+					}
 				}
-				_, ok = fieldAddr(st.Addr, G, "Server", "listener")
-				return ok
 			}
-			if w := an.Search(an.After(wrapAt), later, nil); w != nil {
-				R.Fail("C18-wrap", "(*Server).Run: TLS listener not replaced", c.pos(wrapStore), "s.listener is assigned again after the TLS wrap: "+c.trail(w))
-			} else {
-				R.OK("C18-wrap", "(*Server).Run: TLS listener not replaced", c.pos(wrapStore), "no later store to s.listener")
+			wrapStoreG, wrapAtG = wrapStore, wrapAt
+			// the test that guards the wrap: in the wrap's own function its "configured" side dominates the store; or, for
+			// a wrap in a helper, a test in Run whose "configured" side dominates the helper call
+			var gd *cfgTest
+			for i := range tests {
+				t := &tests[i]
+				if t.fn == h && t.withTLS.Dominates(wrapStore.Block()) {
+					gd = t
+				}
+			}
+			if gd == nil && h != run && wrapAt != nil {
+				for i := range tests {
+					t := &tests[i]
+					if t.fn == run && t.withTLS.Dominates(wrapAt.Block()) {
+						gd = t
+					}
+				}
+			}
+			switch {
+			case wrapAt == nil:
+				R.Fail("C18-wrap", key, c.pos(wrapStore), fname(h)+", which installs the TLS listener, is not called by Run")
+			case gd == nil:
+				R.Fail("C18-wrap", key, c.pos(wrapStore), "the TLS wrap is not guarded by a test of the configured tls.Config")
+			default:
+				bad := ""
+				if gd.fn == run {
+					// guard in Run: with a config every path to Accept installs the listener; every path to Accept is tested
+					if w := an.SearchCorr(an.Point{B: gd.withTLS, I: 0}, isInstr(m.accept), isInstr(wrapAt), nil); w != nil {
+						bad = "with a TLS config a path reaches Accept without installing the TLS listener: " + c.trail(w)
+					} else if an.SearchCorr(an.Entry(run), isInstr(m.accept), isInstr(gd.iff), nil) != nil {
+						bad = "a path reaches Accept without testing for a TLS config"
+					}
+					if h != run && bad == "" && an.Search(an.Entry(h), an.IsReturn, isInstr(wrapStore)) != nil {
+						bad = fname(h) + " can return without installing the TLS listener"
+					}
+				} else {
+					// guard inside the helper: Run calls the helper on every path to Accept, and inside it the
+					// "configured" side always installs the listener
+					if w := an.SearchCorr(an.Entry(run), isInstr(m.accept), isInstr(wrapAt), nil); w != nil {
+						bad = "a path reaches Accept without calling " + fname(h) + ": " + c.trail(w)
+					} else if w := an.Search(an.Point{B: gd.withTLS, I: 0}, an.IsReturn, isInstr(wrapStore)); w != nil {
+						bad = fname(h) + " can return without installing the TLS listener although a config was given: " + c.trail(w)
+					} else if an.Search(an.Entry(h), an.IsReturn, isInstr(gd.iff)) != nil && an.Search(an.Entry(h), isInstr(wrapStore), isInstr(gd.iff)) != nil {
+						bad = fname(h) + " can install a TLS listener without testing the config"
+					}
+				}
+				if bad != "" {
+					R.Fail("C18-wrap", key, c.pos(wrapStore), bad)
+				} else {
+					R.OK("C18-wrap", key, c.pos(wrapStore), "every path with a TLS config stores tls.NewListener(listener, config) into s.listener before the first Accept")
+				}
+				// never replaced afterwards
+				later := func(in ssa.Instruction) bool {
+					st, ok := in.(*ssa.Store)
+					if !ok {
+						return false
+					}
+					_, ok = fieldAddr(st.Addr, G, "Server", "listener")
+					return ok
+				}
+				if w := an.Search(an.After(wrapAt), later, nil); w != nil {
+					R.Fail("C18-wrap", "(*Server).Run: TLS listener not replaced", c.pos(wrapStore), "s.listener is assigned again after the TLS wrap: "+c.trail(w))
+				} else {
+					R.OK("C18-wrap", "(*Server).Run: TLS listener not replaced", c.pos(wrapStore), "no later store to s.listener")
+				}
 			}
 		}
 	}
@@ -502,7 +521,16 @@ func checkC18(c *Ctx) {
 	}
 	// Accept on s.listener
 	_, okAcc := fieldLoad(m.accept.Common().Value, G, "Server", "listener")
-	R.Check(okAcc, "C18-wrap", "(*Server).Run: Accept on s.listener", c.pos(m.accept), "the accept loop uses the (possibly TLS) listener stored in the server", "Accept is called on "+an.Path(m.accept.Common().Value)+", not on s.listener")
+	if okAcc && wrapAtG != nil {
+		// the listener value Accept uses is read after the TLS listener was installed (a copy taken earlier would
+		// still be the plain listener)
+		if ld, isLd := an.Strip(m.accept.Common().Value).(*ssa.UnOp); isLd {
+			if an.Search(an.After(ld), isInstr(wrapAtG), nil) != nil {
+				okAcc = false
+			}
+		}
+	}
+	R.Check(okAcc, "C18-wrap", "(*Server).Run: Accept on s.listener", c.pos(m.accept), "the accept loop uses the (possibly TLS) listener stored in the server, read after the TLS wrap", "Accept is called on "+an.Path(m.accept.Common().Value)+", not on s.listener as it is after the TLS wrap")
 
 	// ---- C18-noplain
 	sock := an.Strip(m.newConn.Common().Args[2])
@@ -622,21 +650,67 @@ func (c *Ctx) checkDirectoryTLS() {
 		R.Fail("C18-directory", "GetTLSConfig: WithMTLS requires and verifies client certificates", c.P.Pos(getTLS.Pos()), "ClientAuth / ClientCAs are not set on the server config")
 		return
 	}
-	k, isK := an.IntConst(clientAuth.Val)
-	underM := hasFact(clientAuth.Block(), true, isMTLS) && hasFact(clientCAs.Block(), true, isMTLS)
-	R.Check(isK && k == reqConst, "C18-directory", "GetTLSConfig: ClientAuth = RequireAndVerifyClientCert", c.pos(clientAuth), "constant tls.RequireAndVerifyClientCert", sprintf("ClientAuth is %s, not RequireAndVerifyClientCert: clients without a valid certificate are admitted", an.Path(clientAuth.Val)))
+	// the value a store writes when withMTLS is set: the stored value itself when the store is under the withMTLS
+	// branch, or - for a value chosen earlier (`clientAuth := NoClientCert; if withMTLS { clientAuth = Require... }`) -
+	// the phi operand coming from the withMTLS branch
+	underMTLS := func(st *ssa.Store) (val ssa.Value, always bool, ok bool) {
+		if hasFact(st.Block(), true, isMTLS) {
+			return st.Val, false, true
+		}
+		phi, isPhi := st.Val.(*ssa.Phi)
+		if !isPhi {
+			return st.Val, true, false
+		}
+		var mv ssa.Value
+		for i, p := range phi.Block().Preds {
+			if hasFact(p, true, isMTLS) {
+				if mv != nil && mv != phi.Edges[i] {
+					return nil, true, false
+				}
+				mv = phi.Edges[i]
+			}
+		}
+		return mv, true, mv != nil
+	}
+	authVal, authAlways, okA := underMTLS(clientAuth)
+	casVal, casAlways, okC := underMTLS(clientCAs)
+	k, isK := int64(0), false
+	if okA {
+		k, isK = an.IntConst(authVal)
+	}
+	R.Check(okA && isK && k == reqConst, "C18-directory", "GetTLSConfig: ClientAuth = RequireAndVerifyClientCert", c.pos(clientAuth), "constant tls.RequireAndVerifyClientCert when WithMTLS is given", sprintf("ClientAuth is %s, not RequireAndVerifyClientCert: clients without a valid certificate are admitted", an.Path(clientAuth.Val)))
 	// every path with withMTLS reaches both stores before return
 	mIfs := ifsOn(getTLS, isMTLS)
-	reach := false
-	if len(mIfs) == 1 {
-		withM := succOn(mIfs[0].If, !mIfs[0].Neg)
-		reach = an.Search(an.Point{B: withM, I: 0}, an.IsReturn, isInstr(clientAuth)) == nil &&
-			an.Search(an.Point{B: withM, I: 0}, an.IsReturn, isInstr(clientCAs)) == nil &&
-			an.Search(an.Entry(getTLS), an.IsReturn, isInstr(mIfs[0].If)) == nil
+	reach := len(mIfs) >= 1
+	for _, st := range []*ssa.Store{clientAuth, clientCAs} {
+		always := authAlways
+		if st == clientCAs {
+			always = casAlways
+		}
+		if always {
+			// unconditional store: on every path to a return
+			if an.Search(an.Entry(getTLS), an.IsReturn, isInstr(st)) != nil {
+				reach = false
+			}
+			continue
+		}
+		okOne := false
+		for _, mi := range mIfs {
+			withM := succOn(mi.If, !mi.Neg)
+			if withM.Dominates(st.Block()) && an.Search(an.Point{B: withM, I: 0}, an.IsReturn, isInstr(st)) == nil && an.Search(an.Entry(getTLS), an.IsReturn, isInstr(mi.If)) == nil {
+				okOne = true
+			}
+		}
+		if !okOne {
+			reach = false
+		}
 	}
-	R.Check(underM && reach, "C18-directory", "GetTLSConfig: WithMTLS always installs the client-cert policy", c.pos(clientAuth), "both stores are executed on every path where withMTLS is set", "with WithMTLS a path returns the server config without ClientAuth/ClientCAs")
+	R.Check(okA && okC && reach, "C18-directory", "GetTLSConfig: WithMTLS always installs the client-cert policy", c.pos(clientAuth), "both stores are executed on every path where withMTLS is set", "with WithMTLS a path returns the server config without ClientAuth/ClientCAs")
 	// ClientCAs = pool filled from the CA generated here
 	pool := an.Strip(clientCAs.Val)
+	if okC {
+		pool = an.Strip(casVal)
+	}
 	pc, isCall := pool.(*ssa.Call)
 	okPool := isCall && an.CalleeIs(pc.Common(), "crypto/x509", "NewCertPool")
 	okFilled := false
